@@ -304,8 +304,17 @@ def run_rebuild(case):
         for u in range(case.get("unrelated", 1)):
             write_file(os.path.join(sdirs[0], "zz-unrelated", "other%d.bin" % u), content("unrelated/%d" % u, 1000 + u))
         # 3. destination pre-state
-        dest = os.path.join(sbx, "dest")
+        # (a "lonely" destination lies below directories that hold nothing else, and may not exist yet)
+        dest_rel = os.path.join("lone", "deeper", "dest") if case.get("lonely_dest") else "dest"
+        dest = os.path.join(sbx, dest_rel)
         os.makedirs(dest)
+        if case.get("file_in_way"):      # a FILE sits where the metafile wants a directory
+            f0 = trees[0]["files"][0]
+            comps0 = list(f0.get("meta_path") or f0["path"])
+            if len(comps0) > 1:
+                write_file(os.path.join(dest, names[0], comps0[0]), b"a file, not a directory")
+        if case.get("dest_absent"):
+            os.rmdir(dest)
 
         def dest_path(ti, f):
             tree = trees[ti]
@@ -355,7 +364,8 @@ def run_rebuild(case):
                     break
         if case.get("nested_search"):     # the same directory is reachable through two search arguments
             sdirs = sdirs + [os.path.join(sdirs[0], d) for d in sorted(os.listdir(sdirs[0]))[:1]]
-        os.symlink(os.path.join(sbx, "dest"), os.path.join(sbx, "destlink"))
+        if not case.get("dest_absent"):     # (a link to a directory that does not exist yet would change its kind in the snapshot)
+            os.symlink(dest, os.path.join(sbx, "destlink"))
         os.symlink(sdirs[0], os.path.join(sbx, "searchlink"))
         before = snapshot(sbx)
         # 4. run
@@ -417,8 +427,10 @@ def run_rebuild(case):
         # 5. abstraction
         def area(rel):
             top = rel.split(os.sep)[0]
-            if top == "dest":
+            if rel == dest_rel or rel.startswith(dest_rel + os.sep):
                 return "D"
+            if case.get("lonely_dest") and top == "lone":
+                return "E"
             if top.startswith("search") or top in snames:
                 return "S"
             if top == "metas":
